@@ -322,6 +322,22 @@ class Firewall(Router, discriminator="firewall"):
             self._process_dmz_outbound_frame(frame, from_network_interface)
             return
 
+    def _leaves_by_dmz_port(self, dst_ip_address: IPv4Address) -> bool:
+        """
+        Whether a frame for this destination is forwarded out of the DMZ port.
+
+        That is the case when the destination is on the DMZ subnet itself, or on none of the firewall's own subnets and
+        routed via a next hop on the DMZ subnet - the DMZ inbound ACL applies to both.
+
+        :param dst_ip_address: The destination IP address of the frame.
+        """
+        if dst_ip_address in self.dmz_port.ip_network:
+            return True
+        if dst_ip_address in self.internal_port.ip_network or dst_ip_address in self.external_port.ip_network:
+            return False
+        route = self.route_table.find_best_route(dst_ip_address)
+        return route is not None and route.next_hop_ip_address in self.dmz_port.ip_network
+
     def _process_external_inbound_frame(self, frame: Frame, from_network_interface: RouterInterface) -> None:
         """
         Process frames arriving from the external network.
@@ -350,8 +366,8 @@ class Firewall(Router, discriminator="firewall"):
             # Port is open on this Router so pass Frame up to session manager first
             self.session_manager.receive_frame(frame, from_network_interface)
         else:
-            # If the destination IP is within the DMZ network, process the frame as DMZ inbound
-            if frame.ip.dst_ip_address in self.dmz_port.ip_network:
+            # If the frame leaves by the DMZ port, process the frame as DMZ inbound
+            if self._leaves_by_dmz_port(frame.ip.dst_ip_address):
                 self._process_dmz_inbound_frame(frame, from_network_interface)
             else:
                 # Otherwise, process the frame as internal inbound
@@ -418,11 +434,11 @@ class Firewall(Router, discriminator="firewall"):
             # Port is open on this Router so pass Frame up to session manager first
             self.session_manager.receive_frame(frame, from_network_interface)
         else:
-            # If the destination IP is within the DMZ network, process the frame as DMZ inbound
-            if frame.ip.dst_ip_address in self.dmz_port.ip_network:
+            # If the frame leaves by the DMZ port, process the frame as DMZ inbound
+            if self._leaves_by_dmz_port(frame.ip.dst_ip_address):
                 self._process_dmz_inbound_frame(frame, from_network_interface)
             else:
-                # If the destination IP is not within the DMZ network, process the frame as external outbound
+                # If the frame does not leave by the DMZ port, process the frame as external outbound
                 self._process_external_outbound_frame(frame, from_network_interface)
 
     def _process_dmz_inbound_frame(self, frame: Frame, from_network_interface: RouterInterface) -> None:
